@@ -355,12 +355,6 @@ def sockAccept (fds : Fds) (m : Mem) (fd res : Nat) : List Res :=
             writes := optBytes m res (bytesLE 4 newFd) }])
   | _ => rE ebadf
 
-/-- the buffers of the iovec array that `readv` can hand to the reader: those inside the memory -/
-def iovWritable (m : Mem) (iovs iovsStop : Nat) : List Wr :=
-  ((iovRegions m iovs (min (iovsStop / 8) (m.size / 8 + 1)) 0).filter (fun r => m.has r.1 r.2)).map
-    (fun r => Wr.region r.1 r.2)
-
-
 def sockRecv (fixed fixedRead : Bool) (fds : Fds) (m : Mem) (fd iovs cnt riFlags res roFlags : Nat) : List Res :=
   match lookupFd fds fd with
   | some .conn =>
